@@ -80,6 +80,8 @@ Vals(k) == SelectSeq(seen, LAMBDA s : s.k \in k)
 CountOf(k, v) == Len(SelectSeq(seen, LAMBDA s : s.k \in k /\ s.v = v))
 Good == {i \o ":" \o Payload : i \in Obs}
 AbsNeverGarbage == \A n \in 1..Len(seen) : seen[n].k \in {"call", "get", "read"} => seen[n].v \in Good
+\* no completion touches a waiter's stack after the blocking call returned (observed by the harness)
+AbsNoUseAfterReturn == \A n \in 1..Len(seen) : seen[n].k # "use_after_return"
 AbsAtMostOnce == \A i \in Obs : CountOf({"call"}, i \o ":" \o Payload) <= 1
 AbsEndOK(t) ==
   /\ t.status = "ok"
